@@ -782,8 +782,10 @@ impl<'a, EntryType: Entry> PathSolution<'a, EntryType> {
                 }
 
                 hops.push(hopfield);
-                // Always include AS MTU in calculation
-                mtu = std::cmp::min(mtu, as_entry.mtu as u16);
+                // Always include AS MTU in calculation. The AS MTU is a u32, the path MTU a u16: an
+                // AS MTU above u16::MAX does not constrain the path MTU (a truncating cast would
+                // turn 65536 into 0).
+                mtu = std::cmp::min(mtu, u16::try_from(as_entry.mtu).unwrap_or(u16::MAX));
             }
 
             // Put the hops in forwarding order. Needed when the path segment in the solution
